@@ -160,6 +160,25 @@ where
     vt == ty && matches!(T::try_from(sh), Ok(v) if v == *c)
 }
 
+/// Does the text of a mismatch error name `requested` as the requested and `actual` as the actual type?  Judged by
+/// which of the words "request.." / "actual" each type name stands closest behind; None when the text does not use
+/// those words or a name is part of the other (nothing is demanded of such a text).
+fn message_roles_ok(msg: &str, requested: &str, actual: &str) -> Option<bool> {
+    let low = msg.to_lowercase();
+    let (rq, ac) = (requested.to_lowercase(), actual.to_lowercase());
+    if rq.contains(&ac) || ac.contains(&rq) {
+        return None;
+    }
+    let (w_req, w_act) = (low.find("request")?, low.find("actual")?);
+    let (p_rq, p_ac) = (low.find(&rq)?, low.find(&ac)?);
+    // the word that precedes a name most closely
+    let role_of = |p: usize| -> Option<bool> {
+        let before: Vec<(usize, bool)> = [(w_req, true), (w_act, false)].into_iter().filter(|(w, _)| *w < p).collect();
+        before.into_iter().max_by_key(|(w, _)| *w).map(|(_, is_req)| is_req)
+    };
+    Some(role_of(p_rq)? && !role_of(p_ac)?)
+}
+
 fn mismatch(req: Ty, act: Ty) -> String {
     format!("MismatchShapeType(requested={},actual={})", req.code(), act.code())
 }
@@ -237,6 +256,13 @@ pub fn run(case: &Case) -> Vec<(String, String)> {
             for s in ALL13 {
                 if s == *ty {
                     continue;
+                }
+                let msg: Option<String> = with_ty!(s, S => S::try_from(clone_shape(&lib)).err().map(|e| e.to_string()), unreachable!());
+                if let Some(m) = &msg {
+                    if message_roles_ok(m, lib_ty(s).to_string().as_str(), lib_ty(*ty).to_string().as_str()) == Some(false) {
+                        out.push((format!("conversion-error-text:{}", tn), format!("{}::try_from(Shape::{}) says {:?}: the requested type is {}, the actual one {}", s.name(), tn, m, s.name(), tn)));
+                        break;
+                    }
                 }
                 let r: Result<(), String> = with_ty!(s, S => S::try_from(clone_shape(&lib)).map(|_| ()).map_err(|e| err_kind(&e)), unreachable!());
                 let want = Err(mismatch(s, *ty));
@@ -444,6 +470,13 @@ pub fn run(case: &Case) -> Vec<(String, String)> {
                     "from_path: read / read_as".into(),
                     conv(ShapeReader::from_path(&path).and_then(|r| r.read()).map_err(|e| err_kind(&e))),
                     with_ty!(*ty, S => ShapeReader::from_path(&path).and_then(|r| r.read_as::<S>()).map(|v| v.into_iter().map(|s| from_lib(&Shape::from(s))).collect()).map_err(|e| err_kind(&e)), unreachable!()),
+                ));
+                // no attribute table at all next to the files: the pair-reading one-liners, generic against typed
+                let _ = std::fs::remove_file(path.with_extension("dbf"));
+                routes.push((
+                    "by path without .dbf: read / read_as".into(),
+                    conv(shapefile::read(&path).map(|v| v.into_iter().map(|p| p.0).collect()).map_err(|e| err_kind(&e))),
+                    with_ty!(*ty, S => shapefile::read_as::<_, S, shapefile::dbase::Record>(&path).map(|v| v.into_iter().map(|p| from_lib(&Shape::from(p.0))).collect()).map_err(|e| err_kind(&e)), unreachable!()),
                 ));
                 let _ = std::fs::remove_file(&path);
                 let _ = std::fs::remove_file(path.with_extension("shx"));
@@ -708,7 +741,7 @@ pub fn check(tier: Tier) -> i32 {
             rule: "all 13 x 14 ordered (requested S, actual T) pairs x files of 1-2 (thorough 3) records over 3 structures, plus files whose last record has any other of the 14 types; every shape value of the C01 quick structure set for the identity / conversion clauses against all 13 target types; bulk conversion with the wrong element at every position of vectors of length 1-3 for all 13 x 13 pairs; hand-encoded 3-record files over {S, another type, null} for every S through ShapeReader::new / with_shx / with_shx with every index entry doubled / the complete Reader; 3-record files of every type located by a hand-made index (4 physical orders x fillers or not x the entries' length fields as they are, 2, 0, +1, -1, i32::MAX, or stretched over the filler behind each record so that they chain): typed against generic-then-converted for read, iteration, random access at every position, and the complete Reader's bulk reads from four states (in memory) and read_shapes / from_path (on disk); non-trivial = every case",
             bounds: json!({"matrix": "13x14 complete", "cases": cases.len()}),
             exhaustive: true,
-            assumptions: vec!["type names in errors are compared through their integer codes; Display names are C19's".into()],
+            assumptions: vec!["type names in errors are compared through their integer codes (Display names are C19's); the text of a mismatch error is only asked to put each type name behind the right one of the words 'request..' / 'actual', when it uses them".into()],
             started,
             states: 0,
             transitions: 0,
